@@ -23,6 +23,7 @@ RULE = ('programs R^N -> R (gradient, hessian, hess_vec) or R^N -> R^M (jacobian
         'program is non-linear; distinct by descriptor hash')
 ASSUMPTIONS = [
     'reference derivatives come from algopy forward mode on the direct program (validated by C01/C02/C07/C08/C09/C12), not from the tracer',
+    'drivers-poly buckets: polynomial programs with integer/dyadic constants, reference = exact analytic derivatives (sparse multivariate polynomials over Fractions), also cross-checked against the forward-mode reference',
     'tolerance 1e-9 relative to max(1, max|reference|); graphs recorded differently must agree to 1e-11 (same scale)',
     'vec_hess_vec requires len(w) == len(x) (the code checks x.shape == w.shape): only M == N programs are used for it',
 ]
@@ -80,6 +81,21 @@ def fwd_jacobian_series(case, X):
         yz = _f(case, UTPM(z))
         cols.append(yz.data[D:] - y0.data[D:])   # (D,P,M)
     return np.stack(cols, axis=-1)
+
+
+def exact_refs(case, x):
+    """exact analytic Jacobian and Hessians of a polynomial program (integer/dyadic constants) at x, in Fractions"""
+    from fractions import Fraction
+    from ..oracles import ExactPoly
+    N = x.size
+    xp = np.array([ExactPoly.var(N, i) for i in range(N)], dtype=object)
+    y = PG.run(case['prog'], [xp])[case['out']]
+    xs = [Fraction(float(v)) for v in x]
+    ys = [e if isinstance(e, ExactPoly) else ExactPoly.const(N, Fraction(e)) for e in np.ravel(y)]
+    J = np.array([[float(e.diff(j).eval(xs)) for j in range(N)] for e in ys])
+    Hs = np.array([[[float(e.diff(i).diff(j).eval(xs)) for j in range(N)] for i in range(N)] for e in ys])
+    deg = max(e.degree() for e in ys)
+    return J, Hs, deg
 
 
 def record(case, which):
@@ -146,6 +162,21 @@ def prop_drivers(case, stats):
         raise Rejected(str(e))
     except Exception as e:
         raise Inconclusive('forward reference failed: %s %s' % (type(e).__name__, str(e)[:120]))
+    if case.get('poly'):
+        # polynomial programs: replace the forward-mode reference by the exact analytic derivatives (and cross-check the two)
+        for tag, x in evals:
+            J, Hs, deg = exact_refs(case, np.array(x, dtype=float))
+            stats.event('poly-degree=%d' % min(deg, 8))
+            r = refs[tag]
+            if kind == 'scalar':
+                _cmp(r['J'], J[0], 'forward-mode gradient vs exact analytic gradient', stats)
+                _cmp(r['H'], Hs[0], 'forward-mode hessian vs exact analytic hessian', stats)
+                r['J'], r['H'] = J[0], Hs[0]
+            else:
+                _cmp(r['J'], J, 'forward-mode jacobian vs exact analytic jacobian', stats)
+                wH = np.tensordot(case['w'], Hs, axes=([0], [0]))
+                _cmp(r['wH'], wH, 'forward-mode vec_hess vs exact analytic', stats)
+                r['J'], r['wH'] = J, wH
     v = case['v']
     w = case['w']
     results = {}
@@ -195,12 +226,13 @@ def prop_drivers(case, stats):
 
 
 @st.composite
-def driver_cases(draw, tier, kind, first=None, families=None, max_len=8):
+def driver_cases(draw, tier, kind, first=None, families=None, max_len=8, poly=False):
     allow_bcast = not KF.is_open('KF-setitem-broadcast-reverse')
     pr = draw(PG.programs(n_inputs=(1, 1), in_rank=(1,), max_side=4, max_len=max_len, min_len=1, families=families,
-                          out=kind, K=4, allow_set_broadcast=allow_bcast, first=first, allow_ones=False))
+                          out=kind, K=4, allow_set_broadcast=allow_bcast, first=first, allow_ones=False, poly=poly))
     case = dict(pr)
     case['kind'] = kind
+    case['poly'] = poly
     N = pr['pts'][0].shape[1]
     y = PG.run(pr['prog'], [np.array(pr['pts'][0][0], dtype=float)])[pr['out']]
     M = int(np.size(y))
@@ -246,4 +278,8 @@ def buckets(tier):
                          (lambda kind=kind: driver_cases(tier, kind, first='rmw', families=['un', 'bin', 'binc', 'set', 'rmw', 'get', 'buf'], max_len=6)),
                          prop_drivers, {'quick': 25, 'thorough': 600}, nontrivial=_nontrivial, classes=_classes,
                          shards={'quick': 4, 'thorough': 8}, weight=5.0))
+        bl.append(Bucket('drivers-poly:' + kind,
+                         (lambda kind=kind: driver_cases(tier, kind, families=PG.FAMILIES_POLY, max_len=7, poly=True)),
+                         prop_drivers, {'quick': 25, 'thorough': 600}, nontrivial=_nontrivial, classes=_classes,
+                         shards={'quick': 4, 'thorough': 8}, weight=6.0))
     return bl
